@@ -127,7 +127,8 @@ def build_case(seed: int, stream: int) -> dict:
         docs[-1] = json.loads(json.dumps(docs[0]))
         expects[-1] = json.loads(json.dumps(expects[0]))
     return {'docs': docs, 'expects': expects, 'ops': gen_history(rng, n_docs),
-            'child_ref': stream % CHILD_EVERY == 0, 'stream': stream}
+            'child_ref': stream % CHILD_EVERY == 0, 'stream': stream,
+            'paths': ['per-doc', 'one-file', 'relative'][stream % 3]}
 
 
 # ---------------------------------------------------------------------------------------------
@@ -234,12 +235,36 @@ def eval_case(case: dict) -> dict:
                 count('constructions')
                 max_live = max(max_live, len(inst))
             elif kind == 'load':
-                path = os.path.join(tmpdir, f'doc{op[2]}.json')
-                if not os.path.exists(path):
+                # where the documents live is part of the history: a file per document, one
+                # file name that is rewritten for every load (a regenerated model), or the
+                # same relative name in different working directories
+                paths = case.get('paths', 'per-doc')
+                cwd = None
+                if paths == 'one-file':
+                    path = os.path.join(tmpdir, 'model.json')
+                elif paths == 'relative':
+                    cwd = os.path.join(tmpdir, f'dir{op[2]}')
+                    os.makedirs(cwd, exist_ok=True)
+                    path = os.path.join(cwd, 'model.json')
+                else:
+                    path = os.path.join(tmpdir, f'doc{op[2]}.json')
+                old = open(path, encoding='utf-8').read() if os.path.exists(path) else None
+                if old != texts[op[2]]:
                     with open(path, 'w', encoding='utf-8') as fh:
                         fh.write(texts[op[2]])
+                    if old is not None:
+                        count('files_rewritten_between_loads')
                 with common.quiet():
-                    back = inst[slot]['obj'].load_file(path)
+                    if cwd is not None:
+                        before = os.getcwd()
+                        os.chdir(cwd)
+                        try:
+                            back = inst[slot]['obj'].load_file('model.json')
+                            count('loads_by_relative_name')
+                        finally:
+                            os.chdir(before)
+                    else:
+                        back = inst[slot]['obj'].load_file(path)
                 if back is not inst[slot]['obj']:
                     count('load_file_not_fluent')
                 inst[slot]['doc'] = op[2]
@@ -394,7 +419,8 @@ def main(tier: str) -> int:
     run = common.Run(PROP, tier)
     n = 200 if tier == 'quick' else 20000
     run.require('process_calls_compared', 'repeats_on_same_instance', 'interleavings',
-                'load_file_calls', 'child_references', 'no_document_refusals')
+                'load_file_calls', 'child_references', 'no_document_refusals',
+                'files_rewritten_between_loads', 'loads_by_relative_name')
     for item, res in run.pmap(_worker, [(run.seed, i) for i in range(n)], chunksize=2):
         common.absorb(run, {'seed': item[0], 'stream': item[1]}, res)
     run.require('serial_parses_compared')
